@@ -5,7 +5,8 @@
 Exit 0: property held on everything explored; 1: VIOLATION (reproduced on the real code); 2: inconclusive."""
 import argparse, json, os, re, shutil, sys, time, random
 sys.path.insert(0, os.path.dirname(os.path.abspath(__file__)))
-import vlib, obs, progs
+import vlib, obs, progs, models, m1, conform
+from concurrent.futures import ThreadPoolExecutor
 from vlib import log, Inconclusive
 
 SPEC = vlib.SPEC
@@ -38,6 +39,43 @@ PLAN = {
 }
 
 
+# property -> model configurations of spec/VarMQ.tla: (quick, thorough extra, liveness configs)
+MODEL_PLAN = {
+    'C01': (['barrier', 'cancel', 'conc2'], ['stop', 'restart', 'tune', 'purge', 'ratio', 'expiry', 'prio'], ['barrier']),
+    'C02': (['conc2', 'pause'], ['tune', 'restart', 'stop', 'ratio'], []),
+    'C03': (['barrier', 'purge', 'expiry'], ['stop', 'restart', 'cancel2', 'tune', 'was'], ['barrier', 'pause', 'purge', 'cancel']),
+    'C05': (['cancel', 'purge'], ['cancel2', 'conc2'], ['cancel']),
+    'C06': (['barrier', 'pause', 'purge'], ['stop2', 'pause2', 'was', 'cancel'], ['barrier', 'pause']),
+    'C09': (['pause'], ['pause2', 'stop', 'restart', 'was'], []),
+    'C10': (['cancel', 'purge', 'qclose'], ['cancel2'], []),
+    'C16': (['barrier', 'cancel'], ['conc2', 'purge', 'prio'], []),
+    'C17': (['conc2', 'pause'], ['tune'], []),
+    'C18': (['expiry', 'ctx0'], ['ratio', 'tune', 'stop', 'restart', 'ctx'], []),
+}
+
+
+def run_models(pid, tier, scratch):
+    """exhaustive TLC runs of the property's model configurations; a model-level failure is inconclusive, never a verdict"""
+    q, t, live = MODEL_PLAN.get(pid, ([], [], []))
+    names = [(n, False) for n in q] + ([(n, False) for n in t] + [(n, True) for n in live] if tier == 'thorough' else [])
+    if tier == 'quick' and live:
+        names.append((live[0], True))
+    out = []
+
+    def one(nl):
+        n, lv = nl
+        r = models.run_model(n, scratch, live=lv, workers=4 if tier == 'quick' else 8, timeout=1500)
+        return n, lv, r
+    with ThreadPoolExecutor(4 if tier == 'quick' else 2) as ex:
+        for n, lv, r in ex.map(one, names):
+            out.append({'config': n, 'liveness': lv, 'ok': bool(r.get('ok')), 'states': r.get('distinct', 0), 'transitions': r.get('generated', 0),
+                        'depth': r.get('depth', 0), 'seconds': round(r['wall'], 1), 'violated': r.get('violated')})
+            if not r.get('ok'):
+                import tlcsum
+                log('model %s%s: %s\n%s' % (n, ' (liveness)' if lv else '', r.get('violated') or 'TLC error', (tlcsum.summarize(r['out'], 60) or r['out'][-1500:])))
+    return out
+
+
 def gen_obsrun(scratch, invs):
     """ObsRun.tla: Obs plus a history variable collecting <<formula, episode, line>> of every failing formula."""
     props = ',\n  '.join('<<"%s", %s>>' % (i, i) for i in invs)
@@ -62,9 +100,6 @@ def tlc_obs_collect(scratch, trace_path, invs, tag):
     os.makedirs(wd, exist_ok=True)
     cfg = os.path.join(wd, 'ObsRun.cfg')
     open(cfg, 'w').write('SPECIFICATION RunSpec\nCHECK_DEADLOCK FALSE\nINVARIANT Report\nPOSTCONDITION Consumed\n')
-    # the generated module must sit next to Obs.tla: copy spec dir content happens in run_tlc; add ObsRun there
-    open(os.path.join(SPEC, '.ObsRun.%s.tmp' % tag), 'w').close()
-    os.remove(os.path.join(SPEC, '.ObsRun.%s.tmp' % tag))
     mod = gen_obsrun(scratch, invs)
     r = run_tlc_with_extra(scratch, 'ObsRun', mod, cfg, trace_path, tag)
     if not r.get('ok'):
@@ -83,18 +118,8 @@ def run_tlc_with_extra(scratch, module, text, cfg, trace_path, tag, workers=1):
     extra_dir = os.path.join(scratch, 'gen-' + tag)
     os.makedirs(extra_dir, exist_ok=True)
     open(os.path.join(extra_dir, module + '.tla'), 'w').write(text)
-    # run_tlc copies SPEC/*.tla; add the generated one by staging a temp spec dir
-    stage = os.path.join(scratch, 'stage-' + tag)
-    if os.path.exists(stage):
-        shutil.rmtree(stage)
-    shutil.copytree(SPEC, stage)
-    shutil.copy(os.path.join(extra_dir, module + '.tla'), stage)
-    old = vlib.SPEC
-    vlib.SPEC = stage
-    try:
-        return vlib.run_tlc(module, cfg, scratch, workers=workers, env={'TRACE': trace_path}, tag=tag, timeout=1200)
-    finally:
-        vlib.SPEC = old
+    return vlib.run_tlc(module, cfg, scratch, workers=workers, env={'TRACE': trace_path}, tag=tag, timeout=1200,
+                        extra_modules=[os.path.join(extra_dir, module + '.tla')])
 
 
 def tlc_obs_confirm(scratch, ep, invs, tag):
@@ -138,6 +163,13 @@ def check_property(pid, tier, seed):
         fams, nq, nt = plan['gated']
         n = nq if tier == 'quick' else nt
         gated = progs.generate(fams, n, rng.randrange(1 << 30), prefix=pid + 'g')
+        # ---- model checking (all interleavings of the small configurations) and TLC-generated schedules (M1)
+        mres = run_models(pid, tier, scratch)
+        cov['model_configs'] = mres
+        mq, mt, _ = MODEL_PLAN.get(pid, ([], [], []))
+        m1progs, m1stats = m1.generate(mq + (mt if tier == 'thorough' else []), 24 if tier == 'quick' else 150, scratch, seed) if mq else ([], {})
+        cov['m1'] = m1stats
+        gated = gated + m1progs
         ffams, fq, ft = plan['free']
         nf = fq if tier == 'quick' else ft
         free = [progs.free_variant(p) for p in progs.generate(ffams, nf, rng.randrange(1 << 30), prefix=pid + 'm')]
@@ -196,18 +228,47 @@ def check_property(pid, tier, seed):
             else:
                 notes.append('unreproduced: %s on %s' % (sorted(fs), epid))
                 print('INCONCLUSIVE property=%s formula(s) %s failed once on episode %s but not on re-execution' % (pid, sorted(fs), epid), flush=True)
+        # ---- conformance pass: recorded gated traces must be behaviours of VarMQ.tla (Trace.tla)
+        elig = [e for e in usable if e['prog']['sched']['kind'] != 'free' and conform.eligible(e['prog'])]
+        rng2 = random.Random(seed)
+        rng2.shuffle(elig)
+        sample = elig[:48 if tier == 'quick' else 600]
+
+        def conf(e):
+            try:
+                return e, conform.validate(e, scratch, e['prog']['id'], timeout=90)
+            except Exception as ex:
+                return e, {'accepted': None, 'error': str(ex)}
+        acc = rej = unk = 0
+        divs = []
+        with ThreadPoolExecutor(vlib.NCPU) as ex:
+            for e, r in ex.map(conf, sample):
+                if r.get('accepted'):
+                    acc += 1
+                elif r.get('accepted') is False and r.get('hw'):
+                    rej += 1
+                    divs.append({'episode': e['prog']['id'], 'family': e['prog']['family'], 'line': r.get('hw'), 'event': (r.get('stuck_line') or '')[:200]})
+                else:
+                    unk += 1
+        cov['conformance'] = {'validated': acc + rej, 'accepted': acc, 'rejected': rej, 'undecided': unk, 'eligible': len(elig), 'divergences': divs[:10]}
+        for d in divs[:5]:
+            print('DIVERGENCE property=%s episode=%s line=%s event=%s (informational: the recorded trace is not a behaviour of spec/VarMQ.tla)' % (pid, d['episode'], d['line'], d['event'][:120]), flush=True)
         cov['traces_validated_against_impl'] = len(usable)
         cov['samples'] = [{'program': usable[0]['prog'], 'first_events': [dict((k, v) for k, v in ev.items() if k != 'st') for ev in usable[0]['events'][:12]]}] if usable else []
         cov['formulas'] = invs
         cov['notes'] = notes
-        cov['states'] = max(1, cov['obs_states'])
-        cov['transitions'] = max(1, cov['obs_states'])
+        cov['states'] = sum(m['states'] for m in mres) or max(1, cov['obs_states'])
+        cov['transitions'] = sum(m['transitions'] for m in mres) or max(1, cov['obs_states'])
+        cov['exhaustive'] = False
+        bad_models = [m for m in mres if not m['ok']]
+        for m in bad_models:
+            print('INCONCLUSIVE model-violation property=%s config=%s formula=%s (the specification, not the code, failed: no verdict)' % (pid, m['config'], m['violated']), flush=True)
         wall = time.time() - t0
         vlib.write_evidence(pid, tier, seed, 'model_checking', cov, wall, violations=len(violations),
                             assumptions=['gate scheduler serialises goroutines at the hooks (GOMAXPROCS(1) children)', 'TLC evaluates the property formulas of spec/Obs.tla on every recorded trace'])
         if violations:
             return 1
-        if notes and not usable:
+        if bad_models:
             return 2
         return 0
     finally:
